@@ -253,7 +253,7 @@ pub fn reader_faults(ctx: &Ctx) {
     let good = match reader_run(dev) {
         Ok(g) => g,
         Err((i, e)) => {
-            ctx.machinery_error(format!("fault-free reader program fails at step {i}: {e}"));
+            ctx.violation(format!("{P}/precondition/fault-free-run-fails"), format!("fault-free reader program fails at step {i}: {e}"));
             return;
         }
     };
@@ -311,7 +311,7 @@ pub fn reader_chunks(ctx: &Ctx) {
     let good = match reader_run(Dev::new(bytes.clone())) {
         Ok(g) => g,
         Err((i, e)) => {
-            ctx.machinery_error(format!("full-transfer reader program fails at step {i}: {e}"));
+            ctx.violation(format!("{P}/precondition/fault-free-run-fails"), format!("full-transfer reader program fails at step {i}: {e}"));
             return;
         }
     };
